@@ -50,6 +50,9 @@ func genC10(r *core.Rand, run int) *MuxScenario {
 					// JSON cannot carry an undeclared field: the twin must not send one either
 					twin.Msgs = append([]MsgSpec(nil), sp.Msgs...)
 					for i := range twin.Msgs {
+						// (... but what the JSON client sends of the backend's
+						// newer build of Payload, a direct client sends too)
+						twin.Msgs[i].Note = twin.Msgs[i].Unknown
 						twin.Msgs[i].Unknown = false
 					}
 				}
